@@ -1,22 +1,3 @@
-mod adapt;
-mod checks;
-mod cli;
-mod common;
-mod constants;
-mod exact;
-mod gen;
-mod gen1d;
-mod layout;
-mod oracle;
-mod recstrat;
-mod splinegen;
-
-use common::*;
-
-fn registry() -> Vec<Box<dyn Check>> {
-    vec![Box::new(checks::c01::C01), Box::new(checks::c02::C02), Box::new(checks::c03::C03), Box::new(checks::c04::C04), Box::new(checks::c05::C05), Box::new(checks::c06::C06), Box::new(checks::c07::C07), Box::new(checks::c08::C08), Box::new(checks::c09::C09), Box::new(checks::c10::C10), Box::new(checks::c11::C11), Box::new(checks::c12::C12), Box::new(checks::c13::C13), Box::new(checks::c14::C14), Box::new(checks::c15::C15), Box::new(checks::c16::C16), Box::new(checks::c17::C17), Box::new(checks::c18::C18), Box::new(checks::c20::C20)]
-}
-
 fn main() {
-    cli::run_cli(registry, || exact::selftest(0x5eed).map(|_| ()).map_err(|e| format!("exact arithmetic: {e}")));
+    vcheck::cli::run_cli(vcheck::registry, vcheck::selftest);
 }
